@@ -56,7 +56,7 @@ def run_check(prop, tier, seed, replay=None):
         for gen in getattr(mod, "GEN_FILES", []):
             if gen in tfails:
                 ctx.obligation_failed(f"translator:{gen}", tfails[gen])
-        coq = coqtool.check_obligations(ctx, mod.PROPS_FILE, getattr(mod, 'COQ_TARGETS', ()))
+        coq = coqtool.check_obligations(ctx, getattr(mod, 'PROPS_FILES', None) or mod.PROPS_FILE, getattr(mod, 'COQ_TARGETS', ()))
         coq["rule"] = getattr(mod, "RULE", "")
         coq["assumptions"] = getattr(mod, "ASSUMPTIONS", [])
         coq["trusted_base"] = coq["trusted_base"] + getattr(mod, "TRUSTED", [])
